@@ -181,6 +181,7 @@ KNOWN_CLASSES = {
     "neg_under_cycle": _cls(gp.neg_under_active_cycle),
     "ad_cyclic_complement": _cls(gp.cyclic_multihead_ad_with_complementary_body),
     "shared_var_call": _cls(gp.shared_var_call),
+    "zero_prob_or_complementary_body": _cls(gp.zero_prob_or_complementary_body),
 }
 
 SUBCHECKS = [
